@@ -221,3 +221,19 @@ Definition aligned (T : poseR) (origin : vecR) (x_axis plane : list vecR) : Prop
   rt Rops T origin = V3 0 0 0 /\
   Forall (fun p => vy (rt Rops T p) = 0 /\ vz (rt Rops T p) = 0) x_axis /\
   Forall (fun p => vz (rt Rops T p) = 0) plane.
+
+(* the identity pose *)
+Definition pid : poseR := MkPose (mid Rops) (vzero Rops).
+
+(* a ground-truth point on the positive X axis *)
+Definition on_pos_x (p : vecR) : Prop := 0 < vx p /\ vy p = 0 /\ vz p = 0.
+
+(* The inputs of align() are the view, through a misalignment M (proper rigid), of a ground truth in which the origin
+   sample is (0,0,0), the x-axis samples (at least one) lie on the positive X axis, the plane samples lie in Z = 0 with at
+   least one of them off the X axis, and the first base station is above the floor. *)
+Definition misaligned_view (M : poseR) (origin : vecR) (x_axis plane : list vecR) (bs : bsdict (F:=R)) : Prop :=
+  exists xs ps k B0 rest,
+    proper (rot M) /\ origin = rt Rops M (V3 0 0 0) /\
+    x_axis = map (rt Rops M) xs /\ xs <> [] /\ Forall on_pos_x xs /\
+    plane = map (rt Rops M) ps /\ Forall (fun p => vz p = 0) ps /\ Exists (fun p => vy p <> 0) ps /\
+    bs = (k, rtp Rops M B0) :: rest /\ 0 < vz (trans B0).
